@@ -171,7 +171,7 @@ def make_record(c, out, subs, acks=None):
           "hasinfo": "TCPREMOTEINFO" in e, "ip": B(e.get("TCPREMOTEIP", "unknown")), "local": B(e.get("TCPLOCALHOST") or e.get("TCPLOCALIP") or "unknown"),
           "proto": B(c.proto.upper())}
     return {"pf": pf, "proto": c.proto, "over": bool(c.over), "hops": bool(c.hops), "sbad": bool(c.sbad), "rc": c.rc, "cut": c.cut is not None or bool(getattr(c, "isfault", False)),
-            "incomplete": bool(getattr(c, "incomplete", False)),
+            "incomplete": bool(getattr(c, "incomplete", False)), "trouble": bool(getattr(c, "trouble", False)),
             "qinv": qinv, "qcomplete": bool(complete), "qexit": c.qexit if qinv else 0, "qsig": bool(qinv and c.qdie == "sig"), "qtext": qtext,
             "acks": acks, "body": list(c.body), "got": list(got), "recv": list(recv), "xs": list(c.sender), "gs": list(gs),
             "xr": [list(r) for r in c.rcpts], "gr": [list(r) for r in gr], "note": c.note}
@@ -339,6 +339,45 @@ def main():
             continue
         recs.append(make_record(c, out, subs.get("s%d" % idx, [])))
         ck.count((c.proto, c.note, len(c.body)), nontrivial=True)
+    # ---- resource trouble: the compiled extra recipient-host list cannot be read (zero length / cut short / a directory): a
+    # recipient that only it could allow gets a TEMPORARY refusal (or none at all), never a permanent one, and nothing is queued
+    if not a.replay:
+        ctl = os.path.join(tree.root, "control")
+        with open(os.path.join(ctl, "morercpthosts"), "w") as f:
+            f.write("more.test\n.wild.test\n")
+        r_ = run([tree.bin("qmail-newmrh")], cwd=tree.root)
+        if r_.returncode != 0:
+            raise Infra("qmail-newmrh failed")
+        good = open(os.path.join(ctl, "morercpthosts.cdb"), "rb").read()
+        nbase = len(jobs)
+        for dmg in ("empty", "header", "dir"):
+            cdb = os.path.join(ctl, "morercpthosts.cdb")
+            if os.path.isdir(cdb):
+                os.rmdir(cdb)
+            elif os.path.exists(cdb):
+                os.unlink(cdb)
+            if dmg == "dir":
+                os.mkdir(cdb)
+            else:
+                with open(cdb, "wb") as f:
+                    f.write(b"" if dmg == "empty" else good[:2048])
+            for proto in ("smtp", "qmtp"):
+                nbase += 1
+                c = Case(proto, b"Subject: r\n\nbody\n", b"s@sender.test", [b"u@more.test"], rc=["trouble"], note="mrh-%s" % dmg)
+                c.trouble = True
+                out, rc_, to = run_case(tree, qq, nbase, c)
+                rec = make_record(c, out, qq.collect().get("s%d" % nbase, []))
+                if proto == "smtp":
+                    codes_ = [x for x, _ in sessions.smtp_replies(out)]
+                    rec["acks"] = [str(x // 100) for x in codes_[3:4]]          # the reply to RCPT
+                recs.append(rec)
+                ck.count((proto, c.note, 0), nontrivial=True)
+        cdb = os.path.join(ctl, "morercpthosts.cdb")
+        if os.path.isdir(cdb):
+            os.rmdir(cdb)
+        elif os.path.exists(cdb):
+            os.unlink(cdb)
+        os.unlink(os.path.join(ctl, "morercpthosts"))
     if hung > 3:
         raise Infra("%d sessions hung" % hung)
     recfile = ck.scratch.path("c07.ndjson")
